@@ -22,7 +22,7 @@ SAN_ENV = {
 FATAL_KINDS = [
     ("scanner jammed", "jam"), ("stack underflow", "underflow"),
     ("push-back overflow", "pushback"), ("token too large", "toobig"),
-    ("scanner uses yyreject", "reject_ovf"), ("scanner uses REJECT", "reject_ovf"),
+    ("scanner uses yyreject", "reject_ovf"), ("scanner uses REJECT", "reject_ovf"), ("scanner uses reject", "reject_ovf"),
     ("out of dynamic memory", "nomem"), ("out of memory", "nomem"),
     ("input in flex scanner failed", "readfail"), ("bad buffer", "badbuf"),
 ]
@@ -124,10 +124,10 @@ def classify(res, log):
 
 
 def run_scanner(built, case, workdir, tag="r", sched=None, flags=0, alloc_fail_at=0,
-                read_faults=(), timeout=60, cpu_s=20, env_extra=None):
+                read_faults=(), timeout=60, cpu_s=20, env_extra=None, bufsize=0):
     packp = os.path.join(workdir, tag + ".pack")
     logp = os.path.join(workdir, tag + ".log")
-    util.write(packp, emit.pack(case, sched, flags, alloc_fail_at, read_faults))
+    util.write(packp, emit.pack(case, sched, flags, alloc_fail_at, read_faults, bufsize))
     env = util.clean_env(SAN_ENV)
     if env_extra:
         env.update(env_extra)
